@@ -537,6 +537,7 @@ func runC01(c *Ctx) {
 		}
 		c.Eval(true, hx(enc[:minInt(len(enc), 64)])+fmt.Sprint(len(enc)))
 	})
+	runC01S3(c) // extension round 3: c01_s3.go (flag-bit laws of Set/Unset, setter sequences)
 }
 
 func remStr(ok bool, n int) string {
